@@ -310,7 +310,7 @@ class Reader:
             old_value.replace_by(value)
         self.scopes[-1].value_map[value.name] = value
 
-    def find_value(self, name, ty=ir.i32):
+    def find_value(self, name, ty=None):
         """Try hard to find a value.
 
         If the value is undefined, create a placeholder undefined
@@ -323,8 +323,11 @@ class Reader:
         else:
             if name in self.undefined_values:
                 value = self.undefined_values[name]
+                if ty is not None:
+                    # This use knows the type of the forward reference
+                    value.ty = ty
             else:
-                value = ir.Undefined(name, ty)
+                value = ir.Undefined(name, ir.ptr if ty is None else ty)
                 self.undefined_values[name] = value
         return value
 
@@ -349,8 +352,8 @@ class Reader:
                 # Go for binop
                 op = self.consume(self.peek)[1]
                 b = self.parse_id()
-                a = self.find_value(a)
-                b = self.find_value(b)
+                a = self.find_value(a, ty=ty)
+                b = self.find_value(b, ty=ty)
                 ins = ir.Binop(a, op, b, name, ty)
             elif a == "phi":
                 ins = ir.Phi(name, ty)
@@ -395,8 +398,8 @@ class Reader:
                 # Binop with an operator that is spelled as a word
                 op = self.parse_id()
                 b = self.parse_id()
-                a = self.find_value(a)
-                b = self.find_value(b)
+                a = self.find_value(a, ty=ty)
+                b = self.find_value(b, ty=ty)
                 ins = ir.Binop(a, op, b, name, ty)
             else:
                 raise NotImplementedError(a)
@@ -410,7 +413,7 @@ class Reader:
             ins = ir.AddressOf(src, name)
         elif self.peek in ir.Unop.ops:
             operation = self.consume(self.peek)[1]
-            a = self.parse_value_ref()
+            a = self.parse_value_ref(ty=ty)
             ins = ir.Unop(operation, a, name, ty)
         else:  # pragma: no cover
             raise NotImplementedError(self.peek)
@@ -430,7 +433,7 @@ class Reader:
     def parse_id(self):
         return self.consume("ID")[1]
 
-    def parse_value_ref(self, ty=ir.ptr):
+    def parse_value_ref(self, ty=None):
         """Parse a reference to another variable."""
         return self.find_value(self.parse_id(), ty=ty)
 
